@@ -532,3 +532,15 @@ func (m *ModSets) otherCallers(target string, allowed []string) (extra []string,
 	sort.Strings(extra)
 	return extra, ""
 }
+
+// onlyInitWrites: the package variable behind comp is stored to only by package initialisers.
+func (m *ModSets) onlyInitWrites(comp string) bool {
+	for f, d := range m.direct {
+		if _, ok := d.comps[comp]; ok {
+			if f.Name() != "init" && !strings.HasPrefix(f.Name(), "init#") {
+				return false
+			}
+		}
+	}
+	return true
+}
